@@ -207,22 +207,29 @@ template <>
 struct default_color_converter_impl<cmyk_t,rgb_t> {
     template <typename P1, typename P2>
     void operator()(const P1& src, P2& dst) const {
-        using T1 = typename channel_type<P1>::type;
+        // The sum c*(1-k)+k is only meaningful for channels whose minimum is zero:
+        // signed channels are mapped to their unsigned equivalent first.
+        using to_unsigned = detail::channel_convert_to_unsigned<typename channel_type<P1>::type>;
+        using T1 = typename to_unsigned::result_type;
+        T1 const c = to_unsigned()(get_color(src,cyan_t()));
+        T1 const m = to_unsigned()(get_color(src,magenta_t()));
+        T1 const y = to_unsigned()(get_color(src,yellow_t()));
+        T1 const k = to_unsigned()(get_color(src,black_t()));
         get_color(dst,red_t())  =
             channel_convert<typename color_element_type<P2,red_t>::type>(
                 channel_invert<T1>(
                     (std::min)(channel_traits<T1>::max_value(),
-                             T1(channel_multiply(get_color(src,cyan_t()),channel_invert(get_color(src,black_t())))+get_color(src,black_t())))));
+                             T1(channel_multiply(c,channel_invert(k))+k))));
         get_color(dst,green_t())=
             channel_convert<typename color_element_type<P2,green_t>::type>(
                 channel_invert<T1>(
                     (std::min)(channel_traits<T1>::max_value(),
-                             T1(channel_multiply(get_color(src,magenta_t()),channel_invert(get_color(src,black_t())))+get_color(src,black_t())))));
+                             T1(channel_multiply(m,channel_invert(k))+k))));
         get_color(dst,blue_t()) =
             channel_convert<typename color_element_type<P2,blue_t>::type>(
                 channel_invert<T1>(
                     (std::min)(channel_traits<T1>::max_value(),
-                             T1(channel_multiply(get_color(src,yellow_t()),channel_invert(get_color(src,black_t())))+get_color(src,black_t())))));
+                             T1(channel_multiply(y,channel_invert(k))+k))));
     }
 };
 
